@@ -242,14 +242,26 @@ def c16(prog, rep):
     T.rule_c16(prog, rep)
     T.rule_b64_staging(prog, rep)
     T.rule_query_split(prog, rep)
+    from . import bitlaws as BL
+    BL.rule_b64_encode_law(prog, rep)
+    BL.rule_b64_decode_law(prog, rep)
+    BL.rule_hex_laws(prog, rep)
+    BL.rule_pct_laws(prog, rep)
     rep.explanation = (
         'Exhaustive check of every entry of the five codec tables, read from their initialiser lists in the type-checked AST '
         '(located by role and length inside their functions, not by name): URL classification table (256 entries: value is 0 '
         'or the byte itself; literal set is URL-safe ASCII without the reserved characters), Base64 alphabet (64 entries = RFC '
         '4648), Base64 reader map (256 entries: inverse of the writer, skip marker elsewhere), hex digit table (lowercase) and '
         'hex reader map (inverse, both cases). Plus the structural clauses: padding conditionals, output allocation 4*ceil(n/3)+1, '
-        'unsigned-byte indexing of the 256-entry tables, \'+\'->space and %hh via the case-folding helper. Not decided: '
-        'round-trip equality and the decoders\' bit arithmetic (value computations).')
+        'unsigned-byte indexing of the 256-entry tables, \'+\'->space and %hh via the case-folding helper. Bit laws, decided by '
+        'tabulating the pure arithmetic expressions of the codecs over their finite operand domains (the expressions are taken '
+        'from the AST; staged bytes, table look-ups and the previous/current sextet become free variables; no codec is run): '
+        'TB10 the four Base64 alphabet indexes are the four 6-bit fields of the staged 24-bit group, in order, and read exactly the '
+        'bytes they need; TB11 in state k the Base64 decoder emits ((previous << 2k) | (current >> (6-2k))) & 0xff, the state '
+        'steps k -> (k+1) mod 4 and the current sextet is carried unconditionally; TB12/TB13 hex digits are (b >> 4, b & 15) and '
+        'decode to 16*hi + lo from cursor offsets 0 and 1; TB14 the URL escape digits are the hex digits of (c >> 4, c & 15) and '
+        'the two-digit helper returns 16*hi + lo for all digit pairs in either case. Together with the table inversions this '
+        'leaves only the loop framing (which bytes are staged when) undecided for round-trip equality.')
     rep.assumptions += ['round-trip equality for all byte strings is a value computation and is not decided']
 
 
